@@ -74,6 +74,7 @@ type lkScanOut struct {
 	loadOnly []string // prefixed function names
 	xcalls   [][3]string
 	extcalls [][3]string
+	gostmts  []string // run-reachable functions that start goroutines
 }
 
 func lkQualName(p *lkPkg, prefix string, other *types.Package, name string) string {
@@ -752,6 +753,11 @@ func (t *lkTr) scanPackage(p *lkPkg, prefix string, runRoots, loadRoots []string
 				}
 			case *ast.IncDecStmt:
 				record(n.X, "")
+			case *ast.GoStmt:
+				// a run that spreads over several goroutines shares its per-run state between them
+				if live {
+					out.gostmts = append(out.gostmts, prefix+f.name)
+				}
 			case *ast.RangeStmt:
 				if n.Tok == token.ASSIGN {
 					if n.Key != nil {
@@ -1131,6 +1137,7 @@ func lkLoadtimeSection(repo string, t *lkTr, sb *strings.Builder) error {
 	var writes []lkWrite
 	var loadOnly, scanned []string
 	var xcalls, extcalls [][3]string
+	var gostmts []string
 	for i, cfg := range cfgs {
 		tr := t
 		if i > 0 {
@@ -1153,6 +1160,7 @@ func lkLoadtimeSection(repo string, t *lkTr, sb *strings.Builder) error {
 		loadOnly = append(loadOnly, out.loadOnly...)
 		xcalls = append(xcalls, out.xcalls...)
 		extcalls = append(extcalls, out.extcalls...)
+		gostmts = append(gostmts, out.gostmts...)
 	}
 	for _, must := range []string{"engine", "engineState", "goImporter", "RunnerState", "rulesRunner", "filterParams", "RunContext", "Engine",
 		"quasigo.Env", "quasigo.EvalEnv", "quasigo.ValueStack", "quasigo.Func", "typematch.Pattern", "typematch.MatcherState"} {
@@ -1190,6 +1198,9 @@ func lkLoadtimeSection(repo string, t *lkTr, sb *strings.Builder) error {
 	}
 	fmt.Fprintf(sb, "(* uses of another package's function by a scanned (run-reachable) function: (user, package, function) *)\nDefinition gen_run_xcalls : list (string * string * string) := %s.\n\n", tuple3(xcalls))
 	fmt.Fprintf(sb, "(* method calls on values of other modules' types that Load creates: (caller, type, method) *)\nDefinition gen_run_extcalls : list (string * string * string) := %s.\n\n", tuple3(extcalls))
+
+	sort.Strings(gostmts)
+	fmt.Fprintf(sb, "(* run-reachable functions that contain a go statement *)\nDefinition gen_run_gostmts : list string := %s.\n\n", lkStrList(gostmts))
 
 	// Load-time object graph
 	p := t.p
